@@ -304,6 +304,24 @@ Definition gmrf_expdet (pd dim : nat) (b : bc) (order : nat) : option Q :=
       end
   end.
 
+(* dim > config.MAX_DIM_INV with periodic / neumann: `_logdet = 2*sum(log(diag(chol)))` of the REGULARISED
+   matrix P + sqrt(eps) I.  Reported here divided by sqrt(eps) (a power of two) to keep the number O(1). *)
+Definition add_diag (s : Q) (M : list (list Q)) : list (list Q) :=
+  map (fun ir => map (fun jz => if (fst ir =? fst jz)%nat then Qred (snd jz + s)%Q else snd jz)
+                     (combine (seq 0 (length (snd ir))) (snd ir)))
+      (combine (seq 0 (length M)) M).
+
+Definition gmrf_expdet_reg (pd dim : nat) (b : bc) (order : nat) : option Q :=
+  match gmrf_init pd dim b order with
+  | Some g =>
+      match b with
+      | Periodic | Neumann =>
+          Some (Qred (det_aux (S dim) (add_diag (chol_shift b) (qmat_of (g_prec g))) / chol_shift b))%Q
+      | _ => None
+      end
+  | None => None
+  end.
+
 (* ---------------- boolean checkers used by the generated case files ---------------- *)
 Fixpoint list_rel {A B} (r : A -> B -> bool) (x : list A) (y : list B) : bool :=
   match x, y with
@@ -409,4 +427,13 @@ Definition check_cmrf (pd dim : nat) (b : bc) (s : Q) (x loc : list Z) (obs_rati
   | Some d, Some o => q_close tol9 o (cmrf_ratio s d)
   | None, None => true
   | _, _ => false
+  end.
+
+(* large-dimension branch: exp(_logdet) / sqrt(eps) vs det(P + sqrt(eps) I) / sqrt(eps).
+   1e-6: the last Cholesky pivot of the nearly singular matrix is ~sqrt(eps) and is computed as a difference
+   of O(1) numbers, so it carries a relative rounding error of about 1e-16 / 1.5e-8 ~ 1e-8 *)
+Definition check_expdet_reg (pd dim : nat) (b : bc) (order : nat) (obs : Q) : bool :=
+  match gmrf_expdet_reg pd dim b order with
+  | Some d => q_close tol6 obs d
+  | None => false
   end.
